@@ -573,20 +573,29 @@ def modec(ctx, cfg, exe, names, rng, full_names, nsample):
     returns (failures, events, evmeta, stats)"""
     curves, fails = modec_ops(exe, cfg, names, rng, ctx)
     stats = {"config": cfg_name(cfg), "curves": len(curves), "events": 0, "validate": {}, "ladder_steps": 0, "ladder_steps_decided": 0}
-    for n, f in curves.items():
-        stats["validate"][n] = int(f["validate"])
-        if int(f["validate"]) != 0:
-            # its only group computation is n*G through the unknown-point multiplier
-            k_ = fail_key(cfg, {"op": "mul", "P": [1, 1], "args": [2]}, 0, "wrong-result")
-            fails.append((k_ if not k_.startswith("unknown_pt_mult:%s:" % FXP[eff(cfg)["unk_eff"]]) else "ec_curve_validate:built-in:nonzero",
-                          "ec_curve_validate(%s) = %s in %s" % (n, f["validate"], cfg_name(cfg)),
-                          {"config": cfg_defs(cfg), "curve": n}))
+    vres, _ = drive(exe, ["validate %s" % n for n in curves], timeout=900, max_crashes=40)
+    for n, r in zip(list(curves), vres):
+        # the only group computation of ec_curve_validate is n*G through the unknown-point multiplier
+        mk = lambda kind: fail_key(cfg, {"op": "mul", "P": [1, 1], "args": [2]}, 0, kind)
+        generic = "unknown_pt_mult:%s:" % FXP[eff(cfg)["unk_eff"]]
+        if r is None: continue
+        if isinstance(r, dict):
+            k_ = mk("crash")
+            fails.append((k_ if not k_.startswith(generic) else "ec_curve_validate:built-in:crash",
+                          "ec_curve_validate(%s) in %s\n%s" % (n, cfg_name(cfg), r["raw"][-1200:]), {"config": cfg_defs(cfg), "curve": n}))
+            continue
+        stats["validate"][n] = int(r[0])
+        if int(r[0]) != 0:
+            k_ = mk("wrong-result")
+            fails.append((k_ if not k_.startswith(generic) else "ec_curve_validate:built-in:nonzero",
+                          "ec_curve_validate(%s) = %s in %s" % (n, r[0], cfg_name(cfg)), {"config": cfg_defs(cfg), "curve": n}))
     OPN = {"bp": "mult_bp", "unk": "unknown_pt_mult", "twinbp": "twin_mult_bp", "twin": "twin_mult", "lad": "ladder(ec_point_add)"}
     # round 1: a random multiple P1 = k1*G from the base-point multiplier (certified by its ladder in round 2)
     info = {}
     l1 = []
     for n, f in curves.items():
-        nn = int(f["n"], 16); G = "%s,%s" % (f["gx"], f["gy"]); k1 = rng.randrange(3, nn - 1)
+        # scalars 0 <= k <= n of bit length <= curve size (secp160r1/r2: n has 161 bits, m = 160)
+        nn = min(int(f["n"], 16), (1 << int(f["m"])) - 1); G = "%s,%s" % (f["gx"], f["gy"]); k1 = rng.randrange(3, nn - 1)
         info[n] = (nn, G, k1)
         l1.append("mulbp %s D %s" % (n, hx(k1)))
     r1, _ = drive(exe, l1, timeout=900)
@@ -720,8 +729,11 @@ def validate_events(ctx, cfg, ev, evmeta, d, tag, nsh=4):
             for j, (e, m) in enumerate(shards[si]):
                 v = verd[ncur + 1 + j]; nval += 1
                 if v == "ok": continue
-                if v.startswith("ladder-") or v == "operand-not-on-curve":
-                    # a step of the driver's own add/double ladder (or an earlier result used as operand) is wrong
+                if v == "operand-not-on-curve":
+                    # the operand is P1 = k1*G as returned by ec_point_mult_bp in round 1: that result is not on the curve
+                    key = fail_key(cfg, {"op": "mulbp", "P": [1, 1], "args": [2]}, 0, "wrong-result")
+                elif v.startswith("ladder-"):
+                    # a step of the driver's own add/double ladder (ec_point_add) is wrong
                     key = fail_key(cfg, {"op": "add", "P": [1, 1], "args": [[2, 2]]}, 0, "wrong-result")
                 else:
                     key = fail_key(cfg, m[3], 0, "wrong-result")
@@ -805,15 +817,16 @@ def run(ctx):
     if len(names) != 32:
         raise common.Infra("expected 32 built-in curves, driver lists %d" % len(names))
     plan = []
-    full0 = set(rng.sample(names[:24], 1)) if ctx.quick else set(names)      # curves whose ladders are certified step by step
+    # curves whose ladders are certified step by step (the others: seeded sample of the steps of every ladder)
+    full0 = set(rng.sample(names[:24], 1)) if ctx.quick else set(rng.sample(names, 10))
     for bi, (c, exes) in enumerate(builds):
         if bi == 0:
             sub, full = names, full0                                    # the suite's configuration: all 32 curves
         else:
             k = 3 if ctx.quick else 5
             sub = sorted({names[(bi * 7 + j * 11) % 32] for j in range(k)}, key=names.index)
-            full = set() if ctx.quick else {sub[bi % len(sub)]}
-        plan.append((c, exes["fast"] if ctx.quick else exes["asan"], sub, full))
+            full = set()
+        plan.append((c, exes["asan"] if (bi == 0 and not ctx.quick) else exes["fast"], sub, full))
     def cjob(p):
         c, exe, sub, full = p
         r = random.Random("%s/%s/C" % (ctx.seed, cfg_name(c)))
